@@ -307,12 +307,29 @@ func (d *Decoder) readObject(typ reflect.Type, cls ClassDef) (interface{}, error
 }
 
 func (d *Decoder) readField(fldName string, fldValue reflect.Value) error {
+	// value ::= class-def value: any number of class definitions may stand in
+	// front of the value of a field, whatever the type of the field
+	tag, err := d.readTag()
+	for err == nil && tag == _objectDefTag {
+		clsDef, defErr := d.readClassDef()
+		if defErr != nil {
+			return defErr
+		}
+		clsD, _ := clsDef.(ClassDef)
+		d.clsDefList = append(d.clsDefList, clsD)
+		tag, err = d.readTag()
+	}
+	if err != nil {
+		return tagReadError(err)
+	}
+	flag := int32(tag)
+
 	sourceValue := fldValue
 	typ := UnpackPtrType(fldValue.Type())
 	fldValue = UnpackPtrValue(fldValue)
 	switch typ.Kind() {
 	case reflect.String:
-		str, err := d.readString(_tagRead)
+		str, err := d.readString(flag)
 		if err != nil {
 			return err
 		}
@@ -320,53 +337,53 @@ func (d *Decoder) readField(fldName string, fldValue reflect.Value) error {
 			fldValue.SetString(str)
 		}
 	case reflect.Int32, reflect.Int, reflect.Int16, reflect.Int8:
-		i, err := d.readInt(_tagRead)
+		i, err := d.readInt(flag)
 		if err != nil {
 			return err
 		}
 		v := int64(i)
 		fldValue.SetInt(v)
 	case reflect.Uint8, reflect.Uint16:
-		i, err := d.readInt(_tagRead)
+		i, err := d.readInt(flag)
 		if err != nil {
 			return err
 		}
 		v := uint64(i)
 		fldValue.SetUint(v)
 	case reflect.Int64:
-		i, err := d.readLong(_tagRead)
+		i, err := d.readLong(flag)
 		if err != nil {
 			return err
 		}
 		fldValue.SetInt(i)
 	case reflect.Uint64, reflect.Uint, reflect.Uint32:
-		i, err := d.readLong(_tagRead)
+		i, err := d.readLong(flag)
 		if err != nil {
 			return err
 		}
 		fldValue.SetUint(uint64(i))
 	case reflect.Bool:
-		b, err := d.readBoolean(_tagRead)
+		b, err := d.readBoolean(flag)
 		if err != nil {
 			return err
 		}
 		fldValue.SetBool(b)
 	case reflect.Float32, reflect.Float64:
-		f, err := d.readDouble(_tagRead)
+		f, err := d.readDouble(flag)
 		if err != nil {
 			return err
 		}
 		fldValue.SetFloat(f)
 	case reflect.Struct:
-		s, err := d.readStruct()
+		s, err := d.readStruct(tag)
 		if err != nil {
 			return err
 		}
 		SetValue(sourceValue, EnsureRawValue(s))
 	case reflect.Map:
-		return d.readMap(sourceValue)
+		return d.readMap(sourceValue, tag)
 	case reflect.Slice, reflect.Array:
-		m, err := d.ReadList(_tagRead)
+		m, err := d.ReadList(flag)
 		if err != nil {
 			if err == io.EOF {
 				break // ignore nil slice
